@@ -3,6 +3,7 @@
 /verif/seeded/*/meta.json and /verif/selfmut/results.json."""
 import json, glob, os, re
 NOTES = {
+  'C20-m4': 'the check contract registers no view function named `default` and no context sends a transaction with an empty function name; produced in the last minutes of the budget, extension described in 11.4',
   'C06-m4': 'reorders operations inside one bulk; C06 takes a flushed bulk as atomic (stated limit of the crash model)',
  'C13-m1': 'not reachable through the component: fetch, removal and block notification all run on the single mempool actor goroutine, puts take the list lock; only direct calls of unexported methods from several goroutines (the demo) expose it',
  'C03-no-rollback-on-rejected-tx': 'no observable difference found: state is staged into the block state only on success, and run-time failures are rolled back inside executeTx (fix 6)',
